@@ -23,7 +23,7 @@ CLUSTERS = ['-1', '-0', '-W', '-v', '-q', '-f', '-v1', '-1v', '-f0', '-W1', '-vW
 LONG_TDDA = ['--tagged', '--istagged', '--write-all', '--W', '--wquiet', '-wquiet']
 LONG_OTHER = ['--verbose', '--failfast', '--quiet', '--locals']
 WRITE = ['-w', '--w', '--write']
-KINDS = ['table', 'graph', 'csv', 'a,b', 'table,graph']
+KINDS = ['table', 'graph', 'csv', 'a,b', 'table,graph', 'table,', 'table,,other', ',csv', 'table, other']   # (empty names are names)
 NAMES = ['TestA', 'TestB', 'TestC']
 
 
@@ -263,11 +263,19 @@ def _log(s):
         f.write(s + '\\n')
 %(classes)s
 if __name__ == '__main__':
+    PRIOR = %(prior)r
+    if PRIOR is not None:
+        # an earlier run in the same process (a driver script that runs the tests twice, with other options)
+        ReferenceTestCase.main(argv=[sys.argv[0]] + PRIOR, exit=False)
+        sys.stdout.flush()
+        sys.stderr.flush()
+        print('=====PRIOR-END=====', flush=True)
+        _log('=====PRIOR-END=====')
     ReferenceTestCase.main()
 '''
 
 
-def module_source(classes, logpath, before=None):
+def module_source(classes, logpath, before=None, prior=None):
     """`before`: {class index: source text placed before that class (len(classes) = after the last one)}"""
     parts = []
     for ci, c in enumerate(classes):
@@ -294,22 +302,27 @@ def module_source(classes, logpath, before=None):
         parts.append('%sclass %s(%s):\n%s' % ('@tag\n' if c['tag'] else '', c['name'], base, ''.join(body)))
     if before and before.get(len(classes)):
         parts.append(before[len(classes)])
-    return MODULE_TEMPLATE % {'repo': core.REPO, 'log': logpath, 'classes': '\n'.join(parts)}
+    return MODULE_TEMPLATE % {'repo': core.REPO, 'log': logpath, 'classes': '\n'.join(parts), 'prior': prior}
 
 
-def run_module(classes, args):
+def run_module(classes, args, prior=None):
     d = tempfile.mkdtemp(prefix='c19_')
     try:
         log = os.path.join(d, 'log.txt')
         mod = os.path.join(d, 'mod.py')
         with open(mod, 'w') as f:
-            f.write(module_source(classes, log))
+            f.write(module_source(classes, log, prior=prior))
         p = subprocess.run(['/venv/bin/python', mod] + args, cwd=d, stdout=subprocess.PIPE, stderr=subprocess.PIPE,
                            text=True, timeout=120)
         ran = []
         if os.path.exists(log):
             ran = [l.strip() for l in open(log) if l.strip()]
-        return {'rc': p.returncode, 'ran': ran, 'stdout': p.stdout, 'stderr': p.stderr[-600:]}
+        out = p.stdout
+        if prior is not None:
+            # only what the second run did counts
+            ran = ran[ran.index('=====PRIOR-END=====') + 1:] if '=====PRIOR-END=====' in ran else ran
+            out = out.split('=====PRIOR-END=====\n', 1)[-1]
+        return {'rc': p.returncode, 'ran': ran, 'stdout': out, 'stderr': p.stderr[-600:]}
     finally:
         shutil.rmtree(d, ignore_errors=True)
 
@@ -535,15 +548,26 @@ def subprocess_cases(rng, n):
                 args += names
         if rng.random() < 0.3:
             args.append(rng.choice(['--verbose', '--failfast']))
-        out.append({'kind': 'run', 'classes': classes, 'args': args, 'names': names,
-                    'tagged': mode in ('tagged', 'both'), 'check': mode in ('check', 'both')})
+        case = {'kind': 'run', 'classes': classes, 'args': args, 'names': names,
+                'tagged': mode in ('tagged', 'both'), 'check': mode in ('check', 'both')}
+        r_ = rng.random()
+        if r_ < 0.2:
+            case['prior'] = rng.choice([['-0'], ['-1'], ['--istagged'], ['--tagged'], []])
+        elif r_ < 0.4 and not (names and '.' in names[0]):
+            # unittest's -k keeps its usual meaning next to the tag options
+            case['pattern'] = rng.choice(['test_a', 'test_b', 'test_c', 'TestA', 'TestB', 'B.test', 'nomatch', 'test_*', '*A.test_b'])
+            pos = 0
+            while pos < len(args) and args[pos].startswith('-') and not args[pos].startswith('--'):
+                pos += 1
+            case['args'] = args[:pos] + ['-k', case['pattern']] + args[pos:]
+        out.append(case)
     return out
 
 
 def oracle_run(case):
     F = []
     fail = lambda clause, detail, key=None: F.append(core.Failure(clause, case, detail, key or clause))
-    r = run_module(case['classes'], case['args'])
+    r = run_module(case['classes'], case['args'], prior=case.get('prior'))
     if case.get('missing_name'):
         # "class names ... keep their usual meaning": a name unittest cannot resolve is an error of the run
         if not case['check'] and r['rc'] == 0:
@@ -558,6 +582,15 @@ def oracle_run(case):
                  'run-executed:method-name' + (':list-tagged' if case['check'] else ''))
         return F
     run, listed = expected_selection(case['classes'], case['tagged'], case['check'], case['names'])
+    if case.get('pattern'):
+        import fnmatch
+        pat = case['pattern'] if '*' in case['pattern'] else '*%s*' % case['pattern']
+        keep = lambda cm: fnmatch.fnmatchcase('__main__.' + cm, pat)
+        if case['check']:
+            # a class is named when one of its tagged tests is among those the pattern keeps
+            full, _ = expected_selection(case['classes'], True, False, case['names'])
+            listed = sorted({cm.split('.')[0] for cm in full if keep(cm)})
+        run = [cm for cm in run if keep(cm)]
     if sorted(r['ran']) != run:
         fail('run-executed', 'args %r executed %r expected %r (rc=%s stderr=%s)'
              % (case['args'], sorted(r['ran']), run, r['rc'], r['stderr'][-200:]))
